@@ -230,6 +230,58 @@ def check_write_contract(cfg, w, rep):
         pay_path = (("v", "Ok"), ("f", "0")) if o.name == "write" else (("v", "Ready"), ("f", "0"), ("v", "Ok"), ("f", "0"))
         key = fn_key(lf)
         for rd in ret_defs(prog, body):
+            if rd.cls == "delegated" and rd.origin is not None and rd.origin.term is not None and (
+                    prog.callee_fn(rd.origin.term) is not None or
+                    (rd.origin.callee is not None and re.search(r"^std::ops::(Fn::call|FnMut::call_mut|FnOnce::call_once)$", rd.origin.callee.path))):
+                # the result of a crate function handed back as it is
+                x = rd.origin
+                g_ = prog.callee_fn(x.term)
+                a_ = prog.resolve_op(x.body, x.term.args[-1], IDENT, x.blk) if x.term.args else set()
+                same_buf = bool(a_) and all(y.kind == "param" and (prog.param_index(y) or (None, None))[1] == bufi for y in a_)
+                gname_ = short(g_.path) if g_ is not None else "a closure it was given"
+                if g_ is not None and g_.outer.name in ("write", "poll_write") and same_buf:
+                    rep.ob(cfg, "write-contract", "%s@%d" % (key, rd.blk), "`%s` hands back what the inner writer's `%s` of the same buffer returned" % (
+                        short(lf.path), g_.outer.name))
+                    continue
+                # a driver that is handed this call's closures: the count it hands back is whatever those closures produce or
+                # recognise — somewhere in them it must be compared with the length of this call's buffer
+                n += 1
+                cmp_found = False
+                for bb_ in prog.fn_bodies(lf):
+                    for blk_ in bb_.blocks:
+                        tu_ = blk_.term
+                        if blk_.cleanup or tu_.k != "switch" or tu_.discr.place is None:
+                            continue
+                        for o_ in prog.resolve_pl(bb_, tu_.discr.place, IDENT):
+                            if o_.kind != "binop" or o_.info.j["op"] not in ("Le", "Lt", "Ge", "Gt"):
+                                continue
+                            for si_, side in enumerate(o_.info.ops):
+                                # the other operand must be a reported count: the Ok payload of some io::Result (not the
+                                # capacity or length of the staging buffer, which is compared with buf.len() for other reasons)
+                                oth_ = prog.resolve_op(bb_, o_.info.ops[1 - si_], OKFLOW, o_.blk) if len(o_.info.ops) == 2 else set()
+                                if not oth_ or not all(any(e_[:2] == ("v", "Ok") for e_ in z_.path if isinstance(e_, tuple)) for z_ in oth_):
+                                    continue
+                                for y in prog.resolve_op(bb_, side, OKFLOW, o_.blk):
+                                    src = None
+                                    if y.kind == "unop" and y.info.j["op"] == "PtrMetadata" and y.info.ops[0].place is not None:
+                                        pl_ = y.info.ops[0].place
+                                        src = prog.resolve_lifted(bb_, pl_.local, norm_path(pl_), IDENT, at=y.blk)
+                                    elif y.kind == "call" and y.callee is not None and y.callee.path.endswith("::len") and y.term.args and y.term.args[0].place is not None:
+                                        pl_ = y.term.args[0].place
+                                        src = prog.resolve_lifted(y.body, pl_.local, norm_path(pl_), IDENT, at=y.blk)
+                                    if src and all(z.kind == "param" and (prog.param_index(z) or (None, None, None))[0] is lf and
+                                                   prog.param_index(z)[1] == bufi for z in src):
+                                        cmp_found = True
+                if cmp_found:
+                    rep.ob(cfg, "write-contract", "%s@%d" % (key, rd.blk),
+                           "`%s` hands back the result of %s; a count is compared with buf.len() in its closures" % (short(lf.path), gname_))
+                else:
+                    rep.violation("write-contract:%s" % key,
+                                  "`%s` hands back the result of %s and nowhere compares a count with the length of this call's buffer: a stored "
+                                  "count of an earlier (larger, abandoned) write would be returned as it is — callers slice their buffer with it "
+                                  "(write_all: `&buf[n..]`) and panic when n > buf.len()" % (short(lf.path), gname_),
+                                  loc=blk_loc(body, rd.blk), config=cfg, rule="write-contract")
+                continue
             if rd.cls not in ("success", "unknown"):
                 continue
             pay = prog.resolve_lifted(body, 0, pay_path, OKFLOW, at=rd.blk)
